@@ -143,6 +143,16 @@ def _concat(repo, col):
             okx = bool(gce) and idx.same_expr(repo, fi, gce[0].stmt, gce[0].stmt.value, "np.repeat(0, self.cumsum_ncomp[-1]).tolist()")
         else:
             okx = bool(gce) and idx.same_expr(repo, fi, gce[0].stmt, gce[0].stmt.value, "[0] * self.ncomp")
+        if gce and not okx and cls in ("Cell", "Branch"):
+            # a single cell: every row gets cell number 0, however the zeros are spelled (a length mismatch is an error of pandas, not a wrong table)
+            zv = idx.value_norm(gce[0].value)
+            while zv.op == "call" and zv.name == "int" and zv.args:
+                zv = zv.args[0]
+            z0 = lambda t_: t_.op == "const" and t_.name == 0 and not isinstance(t_.name, bool)
+            okx = z0(zv) or \
+                (zv.op == "binop" and zv.name == "*" and any(a_.op == "list" and len(a_.args) == 1 and z0(a_.args[0]) for a_ in zv.args)) or \
+                (zv.op == "mcall" and zv.name in ("repeat", "full", "full_like") and any(z0(a_) for a_ in zv.args[1:3]) ) or \
+                (zv.op == "mcall" and zv.name in ("zeros", "zeros_like") and (zv.kw.get("dtype") is None or str(zv.kw["dtype"].name) in ("int", "int64", "int32")))
         col.check(okx, R, fi, f"{cls}: global_cell_index repeats cell c by its own number of compartments", "",
                   f"global_cell_index is {unparse(gce[0].stmt.value) if gce else None}", node=gce[0].node if gce else fi.node)
         # per-branch counts from the constituents, in order
